@@ -90,13 +90,13 @@ def _run_driver(exe, items, nproc):
     events, info = {}, {}
     for iid, percmd in res.items():
         evs = []
-        for ln in percmd[0]:
+        for ln in [x for part in percmd for x in part]:
             if ln.startswith("{"):
                 evs.append(json.loads(ln))
             elif ln.startswith("exc "):
                 crashes[iid] = "driver error: " + ln
             elif ln.startswith("info "):
-                info[iid] = ln
+                info[iid] = (info.get(iid, "") + " || " + ln) if iid in info else ln
         events[iid] = evs
     return events, crashes, info
 
@@ -138,6 +138,165 @@ def _validate(ctx, solves, tag):
     return failed, accepted
 
 
+MATRIX_IDS = {"ddS": ("dd", 12), "ddL": ("dd", 40), "blk": ("block", 12), "rnd": ("rand", 24), "bse": ("bse", 24)}
+
+
+def _history_cmds(hid, steps, rnd, next_sid):
+    """commands of one history on ONE solver object; mirrors DavidsonObject!Configure"""
+    cmds, sids, mode = ["obj id=%d" % hid], [], "SYMM"
+    for st in steps:
+        cmds += ["set itermax=%d" % st["itermax"], "set tol=%s" % st["tol"]]
+        if st["upd"] != "keep":
+            cmds += ["set upd=%s" % st["upd"], "set corr=%s" % st["corr"]]
+        if st["mode"] != mode:
+            cmds.append("set mode=%s" % st["mode"])
+            mode = st["mode"]
+        if st["mk"] == "set":
+            cmds.append("set mss=%d" % (4 * st["neigen"]))
+        fam, n = MATRIX_IDS[st["m"]]
+        assert n == st["N"]
+        sid = next_sid[0]
+        next_sid[0] += 1
+        sids.append(sid)
+        cmds.append("hsolve id=%d fam=%s N=%d neigen=%d sig=0 mf=%d var=%d seed=%d"
+                    % (sid, fam, n, st["neigen"], rnd.randrange(2), rnd.randrange(108), rnd.randrange(1, 1 << 30)))
+    return cmds, sids
+
+
+def _split_history(evs):
+    """events of one history -> list of solves (each: begin, opts, iter*, end) or None if malformed"""
+    solves, cur = [], None
+    for e in evs:
+        if e["e"] == "begin":
+            cur = [e]
+        elif cur is not None and e["e"] in ("opts", "iter", "end"):
+            cur.append(e)
+            if e["e"] == "end":
+                solves.append(cur)
+                cur = None
+    return solves if cur is None and all(_well_formed(x) for x in solves) else None
+
+
+def _validate_histories(ctx, hists, tag):
+    """hists: [(hid, events)] -> ({solve id: [failed predicates]}, set(accepted history ids))"""
+    failed, accepted = {}, set()
+    chunk = 80
+    for i in range(0, len(hists), chunk):
+        part = hists[i:i + chunk]
+        recs, want = [], []
+        for hid, evs in part:
+            base = len(recs)
+            out = [dict(e) for e in evs]
+            out[0]["endl"] = base + len(out)
+            for k, e in enumerate(out):
+                if e["e"] == "begin":
+                    want.append(e["id"])
+                    for j in range(k + 1, len(out)):
+                        if out[j]["e"] == "end":
+                            e["endl"] = base + j + 1
+                            break
+            recs += out
+        path = vlib.scratch_file("dav-%s-%d.ndjson" % (tag, i))
+        vlib.write_ndjson(path, recs)
+        r = vlib.tlc("davidson", "TraceDavidsonObj", cfg="TraceDavidsonObj.cfg", workers=1, env={"TRACE": path},
+                     timeout=1500)
+        if not r.ok:
+            raise vlib.InfraError("TraceDavidsonObj did not finish cleanly: %s\n%s" % (r.violation, r.out[-2000:]))
+        ctx.add_tlc("TraceDavidsonObj[%s %d..%d]" % (tag, i, i + len(part)), r)
+        seen = set()
+        for rec in r.records:
+            if "hacc" in rec:
+                accepted.add(rec["hacc"])
+            elif "id" in rec:
+                failed[rec["id"]] = sorted(rec["failed"])
+                seen.add(rec["id"])
+        missing = [x for x in want if x not in seen]
+        if missing:
+            raise vlib.InfraError("TraceDavidsonObj printed no verdict for solves %s" % missing[:5])
+        os.unlink(path)
+    return failed, accepted
+
+
+def _histories(ctx, exe, rnd, quick):
+    """History layer: several solves on ONE DavidsonSolver object (DavidsonObject.tla)."""
+    res = vlib.tlc("davidson", "MCObject", cfg="MCObject.cfg", workers=4, timeout=900)
+    vlib.tlc_must_hold(res, "DavidsonObject: info()/results/iterations describe the last solve")
+    ctx.add_tlc("MCObject.cfg", res)
+    res = vlib.tlc("davidson", "MCObject", cfg="MCObjectUnfixed.cfg", workers=2, timeout=600)
+    ctx.add_tlc("MCObjectUnfixed.cfg (ResetOnSolve=FALSE, expected counterexample)", res)
+    ctx.extra["stale_status_counterexample"] = (res.violation or "none found (unexpected)") + \
+        " - without the reset at entry a solve that throws leaves the Success and the roots of the previous solve"
+    hs = []
+    for cfg in ("MCObjectVec2.cfg", "MCObjectVec3.cfg"):
+        res = vlib.tlc("davidson", "MCObject", cfg=cfg, workers=4, timeout=900)
+        vlib.tlc_must_hold(res, "history export")
+        ctx.add_tlc(cfg, res)
+        uniq = {json.dumps(r["steps"], sort_keys=True): r["steps"] for r in res.records if "steps" in r}
+        hs.append([uniq[k] for k in sorted(uniq)])
+    ctx.extra["histories_exported"] = sum(len(x) for x in hs)
+    n2, n3 = (90, 60) if quick else (900, 600)
+    chosen = rnd.sample(hs[0], min(n2, len(hs[0]))) + rnd.sample(hs[1], min(n3, len(hs[1])))
+    next_sid = [100001]
+    items, meta = [], {}
+    for k, steps in enumerate(chosen, 1):
+        cmds, sids = _history_cmds(k, steps, rnd, next_sid)
+        items.append((k, cmds))
+        meta[k] = dict(cmds=cmds, sids=sids, steps=steps)
+    events, crashes, info = _run_driver(exe, items, 4)
+    hists, solve_of = [], {}
+    for k, _ in items:
+        sp = _split_history(events.get(k, [])) if k not in crashes else None
+        if sp is None or len(sp) != len(meta[k]["sids"]):
+            ctx.violation("reuse:crash", "driver died or produced no complete record for history %s (%s)"
+                          % (meta[k]["cmds"], crashes.get(k, "incomplete output")), {"history": meta[k]["cmds"]})
+            continue
+        hists.append((k, events[k]))
+        for sv in sp:
+            solve_of[sv[0]["id"]] = (k, sv)
+    failed, accepted = _validate_histories(ctx, hists, "hist")
+    stats = collections.Counter()
+    for k, evs in hists:
+        ctx.traces += 1
+        sp = _split_history(evs)
+        cls = tuple((sv[-1]["status"] if not sv[-1]["exc"] else "Exception") for sv in sp)
+        stats["->".join(cls)] += 1
+        ctx.count(15 * len(sp))
+        ctx.nontriv(("history", cls, tuple((st["m"], st["neigen"], st["itermax"], st["tol"], st["mk"]) for st in meta[k]["steps"])))
+    bad_h = sorted(set(solve_of[sid][0] for sid, names in failed.items() if names))
+    if bad_h:     # report only what fails again when the whole history is run again
+        items2 = [(k, meta[k]["cmds"]) for k in bad_h]
+        events2, crashes2, info2 = _run_driver(exe, items2, 1)
+        again = [(k, events2[k]) for k in bad_h if k in events2 and _split_history(events2[k]) is not None]
+        failed2, _ = _validate_histories(ctx, again, "hist-rerun")
+        for sid in sorted(failed):
+            names = [n for n in failed[sid] if n in failed2.get(sid, [])]
+            k, sv = solve_of[sid]
+            b, e = sv[0], sv[-1]
+            for nm in names:
+                key = "%s:reuse:%s%s" % (b["mode"], b["fam"] + ":" if nm in PROMISED_KEYS else "", nm)
+                what = ("%s is false for solve %d of the history %s: status=%s exc=%r msg=%s niterapi=%s nret=%s shape=%s "
+                        "resq=%s zero=%s" % (nm, meta[k]["sids"].index(sid) + 1, meta[k]["cmds"], e["status"], e["exc"],
+                                             e["msg"], e["niterapi"], e["nret"], e["shape"], e["resq"], e["zero"]))
+                ctx.violation(key, what, {"history": meta[k]["cmds"], "key": key, "events": events[k]})
+    ndrift = 0
+    for k, evs in hists:
+        if k not in accepted:
+            ndrift += 1
+            if ndrift <= 5:
+                txt = "history %s is not a behaviour of DavidsonObject/Davidson" % meta[k]["cmds"]
+                vlib.log("SPEC-DRIFT (not a property violation): " + txt[:400])
+                ctx.extra.setdefault("spec_drift", []).append({"history": meta[k]["cmds"], "what": txt[:600]})
+    if ndrift:
+        ctx.extra["spec_drift_histories"] = ndrift
+        keep = os.path.join(vlib.VERIF, "replays", "C09-drift-history.ndjson")
+        os.makedirs(os.path.dirname(keep), exist_ok=True)
+        vlib.write_ndjson(keep, [evs for k, evs in hists if k not in accepted][0])
+    ctx.extra["histories"] = len(hists)
+    ctx.extra["history_outcomes"] = dict(sorted(stats.items()))
+    if hists:
+        ctx.sample({"history": meta[hists[0][0]]["cmds"]})
+
+
 def _locate(ctx, sid, evs):
     """line of a single-solve trace at which the protocol walk stops (for the SPEC-DRIFT message)"""
     b = dict(evs[0])
@@ -176,6 +335,20 @@ def run(ctx):
     # ---- replay of one recorded solve ------------------------------------------------------------------------
     if getattr(ctx, "replay", None):
         obj = json.load(open(ctx.replay))["replay"]
+        if "history" in obj:
+            events, crashes, info = _run_driver(exe, [(1, obj["history"])], 1)
+            if crashes or _split_history(events.get(1, [])) is None:
+                ctx.violation(obj.get("key", "reuse:crash"), "driver crashed: %s" % crashes, obj)
+                return
+            failed, accepted = _validate_histories(ctx, [(1, events[1])], "replay")
+            ctx.traces += 1
+            begins = {e["id"]: e for e in events[1] if e["e"] == "begin"}
+            for sid, names in failed.items():
+                for nm in names:
+                    b = begins[sid]
+                    key = "%s:reuse:%s%s" % (b["mode"], b["fam"] + ":" if nm in PROMISED_KEYS else "", nm)
+                    ctx.violation(key, "replayed history: solve %s fails %s" % (sid, nm), obj)
+            return
         items = [(0, [obj["cmd"]])]
         events, crashes, info = _run_driver(exe, items, 1)
         if crashes:
@@ -241,7 +414,7 @@ def run(ctx):
         b, e = evs[0], evs[-1]
         its = evs[2:-1]
         ctx.traces += 1
-        ctx.count(13)
+        ctx.count(15)
         restarted = any(y["space"] <= x["space"] for x, y in zip(its, its[1:]))
         outcome = e["status"] if not e["exc"] else "Exception"
         v = meta[sid]["v"]
@@ -296,6 +469,10 @@ def run(ctx):
         keep = os.path.join(vlib.VERIF, "replays", "C09-drift-trace.ndjson")
         os.makedirs(os.path.dirname(keep), exist_ok=True)
         vlib.write_ndjson(keep, drift[0][1])
+
+    # ---- 5. histories on one solver object ------------------------------------------------------------------------------
+    _histories(ctx, exe, rnd, quick)
+    vlib.log("histories done (%.0fs)" % (__import__("time").time() - ctx.t0))
 
     ctx.extra["solves"] = len(solves)
     ctx.extra["outcomes"] = dict(sorted(stats.items()))
